@@ -16,6 +16,7 @@ VARIANTS = {
     "str": ["a", "b", "c", "d"],
     "int": [3, 7, 11, 19],
     "mixed": ["a", 1, "b", 2],            # strings and ints in one alphabet (no symbol is the str() of another)
+    "mixedstr": [1, "1", 2, "2"],         # ... and an alphabet in which every string IS the str() of an int symbol
 }
 
 
